@@ -83,7 +83,12 @@ def run_case(c, W, res):
     from dataclasses import replace
     clock = VClock().install()
     try:
-        G = pki.PKI(clock.now(), n_at=len(c["stations"]), aa_psids=(36, 37, 638, 99), at_psids=(36, 37, 638, 99), name="c05")
+        # honest stations hold VALID tickets of every whole-second Duration unit, some of them well into their validity
+        # period (round 7, C05-agent7: a wrong unit factor shortens the window only for tickets that are not fresh)
+        VAL = (None, (20 * 3600, ("sixtyHours", 2)), (90 * 3600, ("hours", 100)), (50 * 3600, ("minutes", 6000)), (5000, ("seconds", 60000)))
+        nst = len(c["stations"])
+        G = pki.PKI(clock.now(), n_at=nst, aa_psids=(36, 37, 638, 99), at_psids=(36, 37, 638, 99), name="c05",
+                    at_validity=[VAL[(i + nst) % len(VAL)] for i in range(nst)])
         ether = Ether(clock)
         t0 = clock.now()
         S = {}
